@@ -485,6 +485,69 @@ def decisions_for(rng, full):
             yield n, sh, op
 
 
+def fixed_name_requests(ctx, pair, cfg, prefix):
+    """requests whose attribute name is fixed by the handler, not sent by the peer - leaving a with-block (CTXEXIT -> '__exit__') and
+    old-style slicing (OLDSLICING -> '__getitem__' / '__getslice__'): the same policy decides them. Targets: a plain object (the
+    configuration decides) and an object with its own read hook that refuses the name (the hook decides). Oracle: reference
+    policy for the implied name + the target's own effect log."""
+    from rpyc.core import consts
+    a, b = pair.a, pair.b
+    for target_kind in ("plain", "hook-denies"):
+        for req in ("ctxexit", "oldslicing"):
+            log = []
+
+            class Target(object):
+                def __enter__(self):
+                    return self
+
+                def __exit__(self, *exc):
+                    log.append("__exit__ ran")
+                    return False
+
+                def __getitem__(self, key):
+                    log.append("__getitem__ ran")
+                    return "item"
+
+                def __getslice__(self, i, j):
+                    log.append("__getslice__ ran")
+                    return "slice"
+            if target_kind == "hook-denies":
+                def _rpyc_getattr(self, name):
+                    log.append(("hook", name))
+                    raise AttributeError("this object's own hook refuses %r" % (name,))
+                Target._rpyc_getattr = _rpyc_getattr
+            obj = Target()
+            proxy = a._unbox(b._box(obj))
+            del log[:]
+            implied = ["__exit__"] if req == "ctxexit" else ["__getitem__", "__getslice__"]
+            try:
+                if req == "ctxexit":
+                    r = ("ok", a.sync_request(consts.HANDLE_CTXEXIT, proxy, None))
+                else:
+                    r = ("ok", a.sync_request(consts.HANDLE_OLDSLICING, proxy, "__getitem__", "__getslice__", 0, 1, ()))
+            except Exception as e:
+                r = ("exc", type(e))
+            del proxy
+            ran = [e for e in log if type(e) is str]
+            wit = dict(config={s: cfg[s] for s in models.SWITCHES}, prefix=prefix, request=req, target=target_kind, outcome=repr(r)[:120], effects=repr(log)[:200])
+            ctx.case((tuple(cfg[s] for s in models.SWITCHES), prefix, "fixed-name", req, target_kind))
+            ctx.count("fixed_name_requests")
+            if target_kind == "hook-denies":
+                if ran or r[0] != "exc" or not issubclass(r[1], AttributeError):
+                    ctx.violation("C06/fixed-name/%s/own-hook-not-consulted" % req, "the target's own read hook refuses every name, yet the request gave %r and ran %r" % (r, ran), wit)
+                continue
+            pcfg = dict(cfg, exposed_prefix=prefix, safe_attrs=models.SAFE_ATTRS)
+            verdicts = [models.policy(pcfg, "get", n, lambda n2: hasattr(Target, n2)) for n in implied]
+            if all(v[0] == "deny" for v in verdicts):
+                ctx.count("denied_decisions")
+                if ran or r[0] != "exc" or not issubclass(r[1], AttributeError):
+                    ctx.violation("C06/fixed-name/%s/allowed-contrary-to-policy" % req, "the policy denies %r, yet the request gave %r and ran %r" % (implied, r, ran), wit)
+            elif verdicts[0][0] == "access":
+                ctx.count("allowed_decisions")
+                if r[0] != "ok" or ran != ["%s ran" % implied[0]]:
+                    ctx.violation("C06/fixed-name/%s/denied-contrary-to-policy" % req, "the policy allows %r, yet the request gave %r and ran %r" % (implied[0], r, ran), wit)
+
+
 def sweep(ctx, rng):
     import rpyc
     from rpyc.core import protocol
@@ -498,6 +561,7 @@ def sweep(ctx, rng):
         server_cfg = dict(cfg, exposed_prefix=prefix)
         pair = vnet.ServedPair(rpyc.VoidService(), rpyc.VoidService(), cfg_a={}, cfg_b=server_cfg)
         try:
+            fixed_name_requests(ctx, pair, cfg, prefix)
             for n, sh, op in decisions_for(rng, full):
                 k += 1
                 decide(ctx, pair, cfg, prefix, n, sh, op, k)
